@@ -139,9 +139,9 @@ theorem setConfRev_pres (ver : Ver) (x : Nat × Nat) : Pres (fun s => setConfRev
   · cases hf
   · rename_i c hfind
     cases hf
-    cases ver
-    · exact setC_same_contrib_pres hs hfind rfl rfl (contrib_congr rfl rfl rfl)
-    · exact setC_same_contrib_pres hs hfind rfl rfl (contrib_congr rfl rfl rfl)
+    have hk : (setRev c x.2).ver = c.ver ∧ (setRev c x.2).id = c.id ∧ contrib (setRev c x.2) = contrib c := by
+      unfold setRev; cases c.ver <;> exact ⟨rfl, rfl, contrib_congr rfl rfl rfl⟩
+    exact setC_same_contrib_pres hs hfind hk.1 hk.2.1 hk.2.2
 
 theorem setConfRevAll_pres (ver : Ver) (xs : List (Nat × Nat)) : Pres (setConfRevAll ver xs) := by
   induction xs with
